@@ -101,7 +101,7 @@ func runC05(e *emitter, tier string, seed uint64) {
 		"url(JaVaScRiPt:alert(1))", "url(\"javascript:alert(1)\")", "url(data:text/html,x)", "url(http://h/p)", "url(HTTPS://h/p)", "url(mailto:a@b)",
 		"url(//h/p)", "url(ftp://h)", "url(/a);color:red;x:url(b)", "url(/a)}body{x:url(b)", "url(/a),url(/b)", "url(/a) , url(\"/b\")", "url(/a), red",
 		"url(/a\\29 )", "url(/a b)", "url(/a\")", "url(\")", "url()", "url(", "url", "URL(/a)", "url(%zz)", "url(http://[::1]:namedport)", "url(http://a:b)",
-		"url(a:b)", "url(:a)", "url(#a:b)", "url(?a:b)", "url(a/b:c)", "url(\x01)", "url(/a\x7f)", "url(/a<)", "url(/a>)", "url(1a:b)", "url(a+b-c.d:e)",
+		"url(a:b)", "url(:a)", "url(#a:b)", "url(#\x01)", "url(/a#b\x7f)", "url(#\x01),url(/b)", "url(http://h/#\x0b)", "url(#a\x01)x", "url(/a#\x1f);color:red", "url(?a:b)", "url(a/b:c)", "url(\x01)", "url(/a\x7f)", "url(/a<)", "url(/a>)", "url(1a:b)", "url(a+b-c.d:e)",
 		"Arial", "Times New Roman", "sans-serif", "\"Helvetica Neue\"", "\"a\", Arial", "Arial, \"b c\"", "\"", "\"\"", "\"x\"; color: red; \"y\"",
 		"\"</style><script>alert(1)</script>\"", "\"a\\\"\"", "\"a\nb\"", "\"a;b\"", "\"a}b\"", "'Arial'", "Arial;", "A", "a1", "-a", "Arial,", ",", " Arial ",
 		" Arial ", "\"a\"　", "block", "inline-block", "none!", "BLOCK", "-", "", "flex;", "a b",
